@@ -26,8 +26,8 @@ def run(ctx):
         runs.append(("mixed-sim", {"InitTables <- T2": "InitTables <- SomeTables", "MaxOps = 2": "MaxOps = 4", "Ops <- IW": "Ops <- AllOps"}, dict(num=8)))
     else:
         runs.append(("T2x2", {}, None))
-        runs.append(("some3", {"InitTables <- T2": "InitTables <- SomeTables", "MaxOps = 2": "MaxOps = 3"}, None))
-        runs.append(("mixed-lite4", {"InitTables <- T2": "InitTables <- SomeTables", "MaxOps = 2": "MaxOps = 4", "Ops <- IW": "Ops <- AllOps", "Lite = FALSE": "Lite = TRUE"}, None))
+        runs.append(("some3-lite", {"InitTables <- T2": "InitTables <- SomeTables", "MaxOps = 2": "MaxOps = 3", "Lite = FALSE": "Lite = TRUE"}, None))
+        runs.append(("mixed-lite3", {"InitTables <- T2": "InitTables <- SomeTables", "MaxOps = 2": "MaxOps = 3", "Ops <- IW": "Ops <- AllOps", "Lite = FALSE": "Lite = TRUE"}, None))
         runs.append(("mixed-sim", {"InitTables <- T2": "InitTables <- SomeTables", "MaxOps = 2": "MaxOps = 5", "Ops <- IW": "Ops <- AllOps"}, dict(num=400)))
     total = 0
     for name, sub, sim in runs:
